@@ -29,6 +29,7 @@ RULE = ('operators built by every proximal factory x options (g None/element, sc
         '(reified operator term, input)')
 ASSUMPTIONS = [
     'exact arithmetic (rounding, NaN/inf, signed zeros out of scope); tolerance 1e-10 in the correspondence',
+    'lincomb is size-independent (C01 proves the three regimes of _lincomb_impl); C10 only probes the BLAS regime',
     'library primitives (lincomb, multiply, divide, assign, ufunc out=, augmented assignment) read their operands '
     'completely before writing out (C01 proves this for lincomb; NumPy element-wise ufuncs with out aliased to an input)',
     'operator parameters (g, element-valued sigma, bounds, translation, vectors) are not the same objects as x/out',
@@ -56,7 +57,13 @@ LEVEL_TEXT = ('Proof over REGENERATED programs: on every run translate/prox_call
               'before the last read of x breaks these proofs; a construct outside the grammar fails closed. The aliased '
               'theorem holds over any carrier. Parameters and tree shapes are read off live operator objects and an '
               'in-Coq differential run of P(x), P(y,out=y), P(x,out=z) validates the translator\'s primitives on every branch.')
-LEVEL_NOTE = ('Validated, not proved: the translator\'s reading of each library call as a read-then-write primitive '
+LEVEL_NOTE = ('The heap model treats lincomb as one correct read-then-write primitive: that this holds in every size regime of '
+              '_lincomb_impl (direct / fallback / BLAS, all alias patterns) is C01\'s theorem, not C10\'s; C10 VALIDATES the '
+              'composition at BLAS sizes: every proximal _call, the nine expression classes, DiagonalOperator and the in-place '
+              'lincomb patterns of the solvers are run aliased and non-aliased on 50000/65536-entry float32/float64/complex '
+              'spaces against the same operator evaluated with the BLAS regime switched off and against plain-NumPy closed '
+              'forms (probes `blas:*`, also in the quick tier). '
+              'Validated, not proved: the translator\'s reading of each library call as a read-then-write primitive '
               '(correspondence on all branches), NumPy/ODL primitives, proj_simplex / PointwiseNorm / SVD / Lambert-W as '
               'value-level or opaque functions, the three hand-written programs (MatrixOperator.dot, default in-place '
               'bridge, DiagonalOperator row loop), user-supplied temporaries assumed absent, rounding/NaN. Axioms: '
@@ -278,7 +285,11 @@ def rnd_entry(rng):
 def rnd_el(rng, space, pos=False):
     el = space.element()
     for a in _leaf_elems(el):
-        v = np.array([rnd_entry(rng) for _ in range(a.size)]).reshape(a.shape)
+        if a.size > 2000:
+            rs = np.random.RandomState(rng.randrange(2 ** 31))
+            v = (rs.randint(-6, 7, a.size) * rs.choice([1.0, 1.0, 0.5, 0.25], a.size)).reshape(a.shape)
+        else:
+            v = np.array([rnd_entry(rng) for _ in range(a.size)]).reshape(a.shape)
         if pos:
             v = np.abs(v) + rng.choice([0.5, 1.0])
         a[:] = v
@@ -815,6 +826,254 @@ def replay_probe(seed, tier, index):
     return ok, observed, expected
 
 
+# ----------------------------------------------------- BLAS size regime (>= 50000 contiguous float entries)
+def raw(el):
+    """leaf arrays of an element, copied, dtype kept"""
+    return [np.array(np.asarray(a), copy=True).ravel() for a in _leaf_elems(el)]
+
+
+class _no_blas(object):
+    """evaluate with the BLAS regime of _lincomb_impl switched off (the medium-size regime is used instead)"""
+
+    def __enter__(self):
+        import odl.space.npy_tensors as nt
+        self.nt, self.old = nt, nt.THRESHOLD_MEDIUM
+        nt.THRESHOLD_MEDIUM = 10 ** 15
+
+    def __exit__(self, *a):
+        self.nt.THRESHOLD_MEDIUM = self.old
+
+
+def np_ref(P, x):
+    """closed form in plain NumPy (no library arithmetic) for bare entry-wise leaves on tensor spaces; else None"""
+    import odl
+    if isinstance(P.domain, odl.ProductSpace):
+        return None
+    cls = type(P).__name__
+    qn = type(P).__qualname__
+    X = np.asarray(x).ravel()
+    A = lambda e: np.asarray(P.domain.element(e)).ravel()
+    if type(P) in (odl.ScalingOperator, odl.IdentityOperator):
+        return [P.scalar * X]
+    if type(P) is odl.MultiplyOperator:
+        m = P.multiplicand
+        return [(m if np.isscalar(m) else A(m)) * X]
+    if not qn.startswith('proximal_'):
+        return None
+    c = clo(P)
+    g = None if c.get('g') is None else A(c['g'])
+    sig = getattr(P, 'sigma', None)
+    if sig is not None and not np.isscalar(sig):
+        sig = A(sig)
+    if cls == 'ProximalL1':
+        d = X - (0 if g is None else g)
+        return [X - d / np.maximum(np.abs(d) / (sig * c['lam']), 1)]
+    if cls == 'ProximalConvexConjL1':
+        d = X - (0 if g is None else sig * g)
+        return [d / (np.maximum(np.abs(d), c['lam']) / c['lam'])]
+    if cls == 'ProximalL2Squared':
+        t = 2 * sig * c['lam']
+        return [(X + (0 if g is None else t * g)) / (1 + t)]
+    if cls == 'ProximalConvexConjL2Squared':
+        return [(X - (0 if g is None else sig * g)) / (1 + 0.5 * sig / c['lam'])]
+    if cls == 'ProxOpBoxConstraint':
+        r = X
+        for b, f in ((c['lower'], np.maximum), (c['upper'], np.minimum)):
+            if b is not None:
+                r = f(r, b if b in P.domain.field else A(b))
+        return [r]
+    if cls == 'ProximalConvexConjKL':
+        gg = 1 if g is None else g
+        return [(X + c['lam'] - np.sqrt((X - c['lam']) ** 2 + 4 * c['lam'] * sig * gg)) / 2]
+    if cls == 'ProximalHuber':
+        n = np.abs(X)
+        with np.errstate(divide='ignore', invalid='ignore'):
+            return [X * np.where(n <= c['gamma'] + sig, c['gamma'] / (c['gamma'] + sig), 1 - sig / n)]
+    if cls == 'ProximalL2':
+        d = X - (0 if g is None else g)
+        w = float(weight_const(P.domain))
+        nrm = np.sqrt(w * np.sum(np.abs(d) ** 2))
+        step = sig * c['lam'] / nrm if nrm > 0 else np.inf
+        if step < 1 - 1e-9:
+            return [(1 - step) * X + (0 if g is None else step * g)]
+        if step > 1 + 1e-9:
+            return [0 * X if g is None else g]
+    return None
+
+
+def blas_spaces(tier):
+    import odl
+    sp = [('f64', odl.rn(50000)), ('f32', odl.rn(65536, dtype='float32'))]
+    cx = [('c128', odl.cn(50000))]
+    if tier != 'quick':
+        sp += [('f64b', odl.rn(65536)), ('f32b', odl.rn(50000, dtype='float32')), ('f64-2d', odl.rn((256, 256))),
+               ('discr', odl.uniform_discr(0, 1, 65536))]
+        cx += [('c64', odl.cn(65536, dtype='complex64'))]
+    return sp, cx
+
+
+def blas_ops(seed, tier):
+    """[(key, description, thunk)]: thunk() -> (ok, detail).  Every proximal `_call`, the nine expression classes and
+    DiagonalOperator on spaces inside the BLAS regime of _lincomb_impl, aliased and not aliased, against (1) the same
+    operator evaluated with the BLAS regime switched off and (2) a plain-NumPy closed form where one exists."""
+    import random
+    import odl
+    from odl.operator import operator as O
+    S = odl.solvers
+    rng = random.Random('C10-blas-%d' % seed)
+    out = []
+    reals, cplx = blas_spaces(tier)
+
+    def add(key, desc, P, x):
+        out.append((key, desc, (lambda P=P, x=x: eval_blas(P, x))))
+
+    for tag, sp in reals:
+        ops = list(leaf_builders(rng, sp, sqrt_free=True))
+        for g in (None, rnd_el(rng, sp)):
+            gn = 'g' if g is not None else 'nog'
+            ops.append(('l2-' + gn, S.proximal_l2(sp, lam=rng.choice(DY), g=g)(rng.choice([0.5, 2.0, 4096.0])), None))
+            ops.append(('ccl2-' + gn, S.proximal_convex_conj_l2(sp, g=g)(rng.choice(DY)), None))
+            gp = None if g is None else rnd_el(rng, sp, pos=True)
+            ops.append(('cckl-' + gn, S.proximal_convex_conj_kl(sp, lam=rng.choice(DY), g=gp)(rng.choice(DY)), 'pos'))
+            ops.append(('kl-' + gn, S.KullbackLeibler(sp, prior=gp).proximal(rng.choice(DY)), 'pos'))
+        y = rnd_el(rng, sp)
+        f1, f2 = S.L1Norm(sp), S.L2NormSquared(sp)
+        for nm, f in (('F:L1-translated', f1.translated(y)), ('F:L1-conj-translated', f1.convex_conj.translated(y)),
+                      ('F:L2sq-translated', f2.translated(y)), ('F:L1-quadperturb', S.FunctionalQuadraticPerturb(f1, 0.5, y)),
+                      ('F:L1-rightscal', f1 * 2.0), ('F:Linf-conj', S.LpNorm(sp, np.inf).convex_conj),
+                      ('F:L2-translated', S.L2Norm(sp).translated(y)), ('F:huber-translated', S.Huber(sp, 0.5).translated(y))):
+            ops.append((nm, f.proximal(rng.choice(DY)), None))
+        # the nine expression classes, directly
+        A, B = S.proximal_l1(sp, g=rnd_el(rng, sp))(0.5), S.proximal_l2_squared(sp, g=rnd_el(rng, sp))(rnd_el(rng, sp, pos=True))
+        v = rnd_el(rng, sp)
+        Id = odl.IdentityOperator(sp)
+        for nm, P in (('OperatorSum', A + B), ('OperatorSum-scaled-identity', A + 2.0 * Id), ('OperatorSum-identity-left', Id - 0.5 * B),
+                      ('OperatorVectorSum', A + v), ('OperatorComp', A * B), ('OperatorPointwiseProduct', O.OperatorPointwiseProduct(A, B)),
+                      ('OperatorLeftScalarMult', -0.5 * A), ('OperatorRightScalarMult', O.OperatorRightScalarMult(A, 2.0)),
+                      ('OperatorLeftVectorMult', v * A), ('OperatorRightVectorMult', A * v),
+                      ('convex_conj-of-l1', S.proximal_convex_conj(S.proximal_l1(sp, g=v))(0.5)),
+                      ('arg_scaling', S.proximal_arg_scaling(S.proximal_l1(sp), 2.0)(0.5))):
+            ops.append((nm, P, None))
+        for nm, P, mk in ops:
+            x = rnd_el(rng, sp, pos=(mk == 'pos'))
+            add('blas:%s:%s' % (nm, tag), '%s on %r' % (nm, sp), P, x)
+        # product spaces: DiagonalOperator and the group proximals
+        ps = odl.ProductSpace(sp, 2)
+        for nm, P, mk in group_builders(rng, ps):
+            add('blas:%s:%s' % (nm, tag), '%s on %r' % (nm, ps), P, rnd_el(rng, ps))
+        D = odl.DiagonalOperator(S.proximal_l1(sp, g=rnd_el(rng, sp))(0.5), S.proximal_l2_squared(sp, g=rnd_el(rng, sp))(2.0))
+        add('blas:DiagonalOperator:%s' % tag, 'DiagonalOperator on %r' % ps, D, rnd_el(rng, ps))
+        sep = S.SeparableSum(S.L1Norm(sp).translated(rnd_el(rng, sp)), S.L2NormSquared(sp))
+        add('blas:sepsum-prox:%s' % tag, 'SeparableSum.proximal on %r' % ps, sep.proximal(0.5), rnd_el(rng, ps))
+        # element arithmetic the solvers apply in place to their iterates
+        for nm, a, b, pat in (('lincomb-out-is-x1', 0.5, -2.0, 'x1'), ('lincomb-out-is-x2', 1.0, -1.0, 'x2'),
+                              ('lincomb-out-is-x2-generic', 3.0, 0.25, 'x2'), ('lincomb-all-aliased', 0.5, 2.0, 'all'),
+                              ('lincomb-x1-is-x2', 0.5, 2.0, 'x1x2'), ('lincomb-out-is-x1-a1', 1.0, -0.5, 'x1')):
+            out.append(('blas:%s:%s' % (nm, tag), '%s on %r' % (nm, sp),
+                        (lambda sp=sp, a=a, b=b, pat=pat, sd=rng.randrange(2 ** 30): eval_lincomb(sp, a, b, pat, sd))))
+    for tag, sp in cplx:
+        g = sp.element(np.asarray(rnd_el(rng, sp.real_space)) + 1j * np.asarray(rnd_el(rng, sp.real_space)))
+        cx = lambda: sp.element(np.asarray(rnd_el(rng, sp.real_space)) + 1j * np.asarray(rnd_el(rng, sp.real_space)))
+        Id = odl.IdentityOperator(sp)
+        A = S.proximal_l2_squared(sp, g=g)(0.5)
+        for nm, P in (('l2sq-g', A), ('ccl2sq-g', S.proximal_convex_conj_l2_squared(sp, g=g)(2.0)), ('scaling', odl.ScalingOperator(sp, 0.5 - 2j)),
+                      ('OperatorSum', A + (1 + 1j) * Id), ('OperatorVectorSum', A + g), ('OperatorComp', A * (2.0 * Id)),
+                      ('translation', S.proximal_translation(S.proximal_l2_squared(sp), g)(0.5))):
+            add('blas:%s:%s' % (nm, tag), '%s on %r' % (nm, sp), P, cx())
+        for nm, a, b, pat in (('lincomb-out-is-x1', 0.5, -2.0 + 1j, 'x1'), ('lincomb-out-is-x2', 1.0, -1.0, 'x2')):
+            out.append(('blas:%s:%s' % (nm, tag), '%s on %r' % (nm, sp),
+                        (lambda sp=sp, a=a, b=b, pat=pat, sd=rng.randrange(2 ** 30): eval_lincomb(sp, a, b, pat, sd))))
+    return out
+
+
+def _tols(space):
+    import odl
+    sp = space
+    while isinstance(sp, odl.ProductSpace):
+        sp = sp[0]
+    single = np.dtype(getattr(sp, 'dtype', float)) in (np.dtype('float32'), np.dtype('complex64'))
+    return (5e-4, 5e-4) if single else (1e-9, 1e-9)
+
+
+def _dev(a, b, rtol, atol):
+    """None when close, else a short description of the first deviation"""
+    for k, (u, v) in enumerate(zip(a, b)):
+        scale = max(1.0, float(np.max(np.abs(v))) if v.size else 1.0)
+        bad = ~(np.abs(u - v) <= atol * scale + rtol * np.abs(v))
+        if u.shape != v.shape or bad.any():
+            i = int(np.argmax(bad)) if u.shape == v.shape else -1
+            return 'array %d entry %d: %r vs %r (%d entries differ)' % (k, i, u[i], v[i], int(bad.sum()))
+    return None
+
+
+def eval_blas(P, x):
+    x0 = raw(x)
+    with _no_blas():
+        ref = raw(P(x.copy()))
+    if not all(np.isfinite(r).all() for r in ref):
+        return True, 'nonfinite reference'
+    rtol, atol = _tols(P.domain)
+    r = P(x)
+    oop = raw(r)
+    y = x.copy()
+    P(y, out=y)
+    z = junk_like(P.range)
+    x2 = x.copy()
+    P(x2, out=z)
+    why = []
+    for nm, got in (('P(x)', oop), ('P(y, out=y)', raw(y)), ('P(x, out=z)', raw(z))):
+        d = _dev(got, ref, rtol, atol)
+        if d:
+            why.append('%s differs from the value computed without the BLAS regime: %s' % (nm, d))
+    for nm, el in (('x after P(x)', x), ('x after P(x, out=z)', x2)):
+        if any((u != v).any() for u, v in zip(raw(el), x0)):
+            why.append(nm + ' was modified')
+    cf = np_ref(P, x)
+    if cf is not None:
+        d = _dev(oop, [np.asarray(c).ravel() for c in cf], max(rtol, 1e-7), max(atol, 1e-7))
+        if d:
+            why.append('P(x) differs from the plain-NumPy closed form: %s' % d)
+    return (not why), '; '.join(why) or None
+
+
+def eval_lincomb(sp, a, b, pat, sd):
+    rs = np.random.RandomState(sd)
+
+    def mk():
+        v = rs.randint(-6, 7, sp.size) * 0.25
+        if sp.is_complex:
+            v = v + 1j * rs.randint(-6, 7, sp.size) * 0.5
+        return sp.element(v.reshape(sp.shape))
+    x, y = mk(), mk()
+    X, Y = np.asarray(x).copy(), np.asarray(y).copy()
+    if pat == 'x1':
+        x.lincomb(a, x, b, y)
+        want, keep = a * X + b * Y, (y, Y)
+    elif pat == 'x2':
+        x.lincomb(a, y, b, x)
+        want, keep = a * Y + b * X, (y, Y)
+    elif pat == 'all':
+        x.lincomb(a, x, b, x)
+        want, keep = (a + b) * X, (y, Y)
+    else:
+        x.lincomb(a, y, b, y)
+        want, keep = (a + b) * Y, (y, Y)
+    rtol, atol = _tols(sp)
+    d = _dev([np.asarray(x).ravel()], [want.ravel()], rtol, atol)
+    why = []
+    if d:
+        why.append('result differs from a*x1 + b*x2 of the old operands: ' + d)
+    if (np.asarray(keep[0]) != keep[1]).any():
+        why.append('a non-output operand was modified')
+    return (not why), '; '.join(why) or None
+
+
+def replay_blas(seed, tier, index):
+    key, desc, thunk = blas_ops(seed, tier)[index]
+    ok, detail = thunk()
+    return ok, detail, None
+
+
 class _Unalias(object):
     """prox factory wrapper: the returned operator never sees x is out"""
 
@@ -973,6 +1232,15 @@ def probes(rng, tier):
         rp = ("import sys\nsys.path.insert(0, %r)\nfrom harness import c10\n"
               "ok, observed, expected = c10.replay_probe(%d, %r, %d)\n" % (C.VERIF, seed, tier, idx))
         out.append(C.Probe(ok, key, 'P(y, out=y) and P(x, out=z) equal P(x), x untouched: %s' % desc, rp, note))
+    for idx, (key, desc, thunk) in enumerate(blas_ops(seed, tier)):
+        try:
+            ok, note = thunk()
+        except Exception as e:
+            ok, note = False, 'raised %r' % (e,)
+        rp = ("import sys\nsys.path.insert(0, %r)\nfrom harness import c10\n"
+              "ok, observed, expected = c10.replay_blas(%d, %r, %d)\n" % (C.VERIF, seed, tier, idx))
+        out.append(C.Probe(ok, key, 'BLAS size regime: P(x), P(y,out=y), P(x,out=z) equal the value computed without the BLAS '
+                                    'regime (and the NumPy closed form): %s' % desc, rp, note))
     for idx, (key, what, run) in enumerate(solver_runs(seed, tier)):
         try:
             ok, a, b = replay_solver(seed, tier, idx)
